@@ -4,7 +4,7 @@
 (* and the phase discipline C04 relies on).                                *)
 (*                                                                         *)
 (* translate_trace.ndjson is a concatenation of recorded translations,     *)
-(* each: one row {"ev":"src","src":<abstract source>}, then one row        *)
+(* each: one row {"ev":"src","src":<source>,"lay":<layout>}, then one row        *)
 (* {"ev":"pick","phase":p,"key":k} per hook event of asm.VerifHook (one    *)
 (* per iteration of each map-ranging loop of the translator, in the order  *)
 (* the Go runtime produced), then {"ev":"end","st":"ok"|"err"|"crash"}.    *)
@@ -28,7 +28,7 @@ IsEvent(e) == l <= Len(Trace) /\ Trace[l].ev = e /\ l' = l + 1
 TraceInit == Init /\ l = 1
 
 TrSrc == /\ IsEvent("src") /\ pc = "choose"
-         /\ src' = Trace[l].src /\ pc' = "index"
+         /\ src' = Trace[l].src /\ lay' = Trace[l].lay /\ pc' = "index"
          /\ UNCHANGED <<i, old, new, pend, uses, todo, res, picks>>
 TrPick == /\ IsEvent("pick") /\ pc = Trace[l].phase
           /\ Trace[l].key \in Names
@@ -37,7 +37,7 @@ TrPick == /\ IsEvent("pick") /\ pc = Trace[l].phase
 Silent == /\ l <= Len(Trace) /\ Trace[l].ev # "src" /\ UNCHANGED l
           /\ (Index \/ Tail3 \/ AddDefs)
 TrEnd == /\ IsEvent("end") /\ pc = "done" /\ res.st = Trace[l].st
-         /\ pc' = "choose" /\ src' = <<>> /\ i' = 1 /\ old' = EmptyOld /\ new' = EmptyNew /\ pend' = {}
+         /\ pc' = "choose" /\ src' = <<>> /\ lay' = PlainLayout /\ i' = 1 /\ old' = EmptyOld /\ new' = EmptyNew /\ pend' = {}
          /\ uses' = {} /\ todo' = {} /\ res' = [st |-> "run"] /\ picks' = <<>>
 Finished == l > Len(Trace) /\ UNCHANGED tvars
 
@@ -45,6 +45,6 @@ TraceNext == TrSrc \/ TrPick \/ Silent \/ TrEnd \/ Finished
 TraceSpec == TraceInit /\ [][TraceNext]_tvars
 
 \* every invariant of the model is evaluated in every state of the replayed executions
-TraceDeterministic == Done => res = Canon(src)
+TraceDeterministic == Done => res = Canon(src, lay)
 TraceView == <<View, l>>
 =============================================================================
